@@ -11,18 +11,22 @@ var propRules = map[string][]ruleSpec{
 		{"R6", "float32 admitted (T8)", ruleR6},
 		{"R3", "initial states / weights not modified (E2)", ruleR3},
 		{"R21", "attribute state read-only after Init", ruleR21},
+		{"R24", "defaults replace optional inputs only when absent", ruleOptionalDefaults},
 	},
 	"C16": {
 		{"R11", "Conv batch-index pairing (K2, K3)", ruleR11},
 		{"R12", "recurrent output reshape provenance and time slice (P6, P7)", ruleR12},
 		{"R10", "Repeat only as a guarded stretch in per-sample operators", ruleR10},
 		{"R21", "attribute state read-only after Init", ruleR21},
+		{"R7t", "Transpose delegates to gorgonia", ruleTermsShapeOps},
 	},
 	"C05": {
 		{"R11", "Conv geometry: loop/coordinate pairing (K2,K3), index kinds (K1), auto_pad (K4)", ruleR11},
 		{"R6", "float32/float64 admitted (T8)", ruleR6},
 		{"R3", "operands (bias!) not modified (E2)", ruleR3},
 		{"R21", "attribute state read-only after Init", ruleR21},
+		{"R11o", "kernel-shape readers run after the dilation step (K6)", ruleConvOrdering},
+		{"R24", "defaults replace optional inputs only when absent", ruleOptionalDefaults},
 	},
 	"C04": {
 		{"R16", "dependency shape of Gemm / Scaler / LinearRegressor / MatMul", ruleR16},
@@ -30,6 +34,7 @@ var propRules = map[string][]ruleSpec{
 		{"R6", "float32 admitted (T8)", ruleR6},
 		{"R3", "operands and attribute tensors not modified (E2)", ruleR3},
 		{"R21", "attribute state read-only after Init", ruleR21},
+		{"R24", "defaults replace optional inputs only when absent", ruleOptionalDefaults},
 	},
 	"C03": {
 		{"R7", "operator -> kernel table, operand order, multidirectional mode, boolean truth tables", ruleR7Binary},
@@ -53,6 +58,7 @@ var propRules = map[string][]ruleSpec{
 		{"R14", "Cast / Constant / ConstantOfShape tables", ruleR14},
 		{"R20", "source dtypes covered by the scalar wrapper", ruleR20Scalar},
 		{"R21", "attribute state read-only after Init", ruleR21},
+		{"R22", "gorgonia's lax Shape.Eq does not decide shape matching", ruleR22},
 	},
 	"C07": {
 		{"R9", "user axes validated (R9a) and normalised (R9b)", ruleR9},
@@ -67,6 +73,7 @@ var propRules = map[string][]ruleSpec{
 		{"R19", "Slice restores the rank gorgonia drops", ruleR19},
 		{"R20", "Data() passes the scalar wrapper before slice assertions", ruleR20Scalar},
 		{"R21", "attribute state read-only after Init", ruleR21},
+		{"R7t", "Transpose delegates to gorgonia", ruleTermsShapeOps},
 	},
 	"C09": {
 		{"R9", "requested axes normalised before reaching gorgonia (R9b; R9a as notes)", ruleR9},
@@ -74,6 +81,7 @@ var propRules = map[string][]ruleSpec{
 		{"R20", "keepdims <=> reshape; ArgMax int64", ruleR20Keepdims},
 		{"R20s", "Data() passes the scalar wrapper before slice assertions", ruleR20Scalar},
 		{"R21", "attribute state read-only after Init", ruleR21},
+		{"R7t", "Softmax/LogSoftmax delegate to gorgonia on the requested axis", ruleTermsShapeOps},
 	},
 	"C14": {
 		{"R10", "Repeat only as a guarded stretch", ruleR10},
@@ -102,6 +110,7 @@ var propRules = map[string][]ruleSpec{
 		{"R5", "validator runs first (M1)", ruleR5},
 		{"R3", "validator touches no tensor (E2)", ruleR3},
 		{"R22", "gorgonia's lax Shape.Eq does not decide shape matching", ruleR22},
+		{"R3w", "the initializer map is never written after construction", ruleR3Weights},
 	},
 	"C02": {
 		{"R3", "borrowed tensors / shared storage never mutated (E2)", ruleR3},
